@@ -16,9 +16,11 @@ for i in idx:
     ctx = Ctx(prop=prop, tier=tier, seed=int(os.environ.get('VERIF_SEED', 0)), x64=int(x64), shard=0, nshards=1,
               deadline=time.time() + 1e6, only_index=int(i), part=None if part == '-' else part)
     mod.run(ctx)
+    if core.LOG.violations and os.environ.get('FVM_STOP_AT_FIRST'):
+        break
 d = core.LOG.dump()
 for v in d['violations']:
-    print('VIOLATION', v['key'], v['msg']); [print('    ', k, ':', str(x)[:2000]) for k, x in v['detail'].items()]
+    print('VIOLATION', v['key'], v['msg'], v['case']); [print('    ', k, ':', str(x)[:2000]) for k, x in v['detail'].items()]
 print(json.dumps(d['counters'], indent=1))
 for n in d['notes']: print(n)
 print(d['samples'][:3])
